@@ -53,4 +53,13 @@ def Required (r : Res) (v : Ver) : Prop :=
 /-- The resource lists as available only versions whose file is on disk. -/
 def ListingSound (r : Res) : Prop := ∀ rv ∈ r.versions, rv.avail = true → (rv.ver, 0) ∈ r.disk
 
+/-- The documented identifier form: the file stem (file name up to its first dot, where the version is
+    inserted) does not itself contain a `_v<d>-<d>-<d>` version pattern. -/
+def ValidIdentifier (id : Str) : Prop := findFileVer (splitDot (pathSplit id).2).1 = none
+
+/-- The documented file-name form: the version found in the file name sits directly in front of the extension
+    (no dot before it; behind it the name ends or the extension starts). -/
+def VersionBeforeExtension (p : Str) : Prop :=
+  ∀ b m a, findFileVer (pathSplit p).2 = some (b, m, a) → 46 ∉ b ∧ (a = [] ∨ ∃ e, a = 46 :: e)
+
 end PB.Updater.Spec
